@@ -461,11 +461,11 @@ class Path:
 class Sym:
     """acyclic path enumeration with forward substitution for one body"""
 
-    def __init__(self, body, max_paths=20000, follow_pending=False):
+    def __init__(self, body, max_paths=20000, stop_at=()):
         self.body = body
         self.max_paths = max_paths
         self.paths = []
-        self.follow_pending = follow_pending
+        self.stop_at = set(stop_at)
 
     # -- reading ---------------------------------------------------------------------------------
     def local_term(self, p, l):
@@ -600,6 +600,11 @@ class Sym:
             b, p = stack.pop()
             if len(self.paths) > self.max_paths:
                 raise Lost('too many paths in %s' % body.path)
+            if b in self.stop_at and p.blocks:
+                p.end = 'stop'
+                p.stop_block = b
+                self.paths.append(p)
+                continue
             if b in p.blocks:
                 # back edge
                 if all(is_await_block(body, x) for x in p.blocks[p.blocks.index(b):]):
@@ -959,10 +964,11 @@ def literal(cond):
 
 class Table:
     """decision table extracted from the complete paths of a Sym run.
-    classify(literal) -> (atom_name, truth) | None (ignore: e.g. overflow assert) | raises Lost"""
+    classify(literal, cond) -> (atom_name, allowed) where allowed is a bool or a set of domain values
+                             | None (ignore the condition) | 'infeasible'; may raise Lost"""
 
     def __init__(self, rows):
-        self.rows = rows  # list of (dict atom->bool, outcome, path)
+        self.rows = rows  # list of (dict atom->frozenset(allowed values), outcome, path)
 
     @staticmethod
     def build(paths, classify, outcome):
@@ -978,11 +984,16 @@ class Table:
                 if r == 'infeasible':
                     consistent = False
                     break
-                atom, truth = r
-                if atom in val and val[atom] != truth:
+                atom, allowed = r
+                if isinstance(allowed, bool):
+                    allowed = {allowed}
+                allowed = frozenset(allowed)
+                if atom in val:
+                    allowed = val[atom] & allowed
+                if not allowed:
                     consistent = False  # infeasible path (same atom tested twice with different outcome)
                     break
-                val[atom] = truth
+                val[atom] = allowed
             if not consistent:
                 continue
             rows.append((val, outcome(p), p))
@@ -992,25 +1003,42 @@ class Table:
         """outcomes of all rows consistent with a total valuation"""
         outs = []
         for val, out, p in self.rows:
-            if all(valuation.get(a) == tv for a, tv in val.items()):
+            if all(valuation.get(a) in allowed for a, allowed in val.items()):
                 outs.append(out)
         return outs
 
-    def compare(self, atoms, expected, consistent=lambda v: True):
-        """expected(valuation)->outcome. returns list of (valuation, got_outcomes, expected) mismatches"""
+    def compare(self, domains, expected, consistent=lambda v: True):
+        """domains: dict atom -> list of values (bool atoms: [False, True]); expected(valuation)->outcome.
+        returns (mismatches, number of valuations checked); a valuation with no row is a mismatch"""
+        atoms = list(domains.keys())
         bad = []
-        n = len(atoms)
         count = 0
-        for m in range(1 << n):
-            v = {atoms[i]: bool((m >> i) & 1) for i in range(n)}
-            if not consistent(v):
-                continue
-            count += 1
-            got = self.lookup(v)
-            exp = expected(v)
-            if not got or any(g != exp for g in got):
-                bad.append((v, got, exp))
+        for val, out, p in self.rows:
+            for a in val:
+                if a not in domains:
+                    bad.append(({'unexpected condition': a}, [out], None))
+
+        def rec(i, v):
+            nonlocal count
+            if i == len(atoms):
+                if not consistent(v):
+                    return
+                count += 1
+                got = self.lookup(v)
+                exp = expected(v)
+                if not got or any(g != exp for g in got):
+                    bad.append((dict(v), got, exp))
+                return
+            for x in domains[atoms[i]]:
+                v[atoms[i]] = x
+                rec(i + 1, v)
+            del v[atoms[i]]
+
+        rec(0, {})
         return bad, count
+
+
+BOOL = [False, True]
 
 
 def writes_of(path):
@@ -1022,3 +1050,91 @@ def calls_of(path, suffix=None):
     if suffix is not None:
         out = [e for e in out if e[1] is not None and e[1].endswith(suffix)]
     return out
+
+
+# ------------------------------------------------------------------------------------------------
+# small term matchers
+
+
+def root_of(t):
+    """strip field / deref / downcast / ref / index projections down to the root term"""
+    while isinstance(t, tuple) and t[0] in ('field', 'deref', 'downcast', 'ref', 'index'):
+        t = t[1]
+    return t
+
+
+def is_param(t, name=None, index=None):
+    return isinstance(t, tuple) and t[0] == 'param' and (name is None or t[2] == name) and (index is None or t[1] == index)
+
+
+def field_chain(t):
+    """names of the field projections from the root outwards, ignoring derefs/refs/downcasts:
+    (*self).handle.addr -> ['handle', 'addr']"""
+    out = []
+    while isinstance(t, tuple) and t[0] in ('field', 'deref', 'downcast', 'ref'):
+        if t[0] == 'field':
+            out.append(t[2])
+        t = t[1]
+    out.reverse()
+    return out
+
+
+def is_field_of_param(t, pname, fields):
+    """t is param.fields… modulo refs/derefs/downcasts"""
+    if isinstance(fields, str):
+        fields = [fields]
+    r = root_of(t)
+    return is_param(r, pname) and field_chain(t) == list(fields)
+
+
+def option_is_some(v):
+    """truth of `is Some` from a variant literal value on an Option (None = 0, Some = 1)"""
+    if v == 1:
+        return True
+    if v == 0:
+        return False
+    if isinstance(v, tuple) and v[0] == 'not':
+        if tuple(v[1]) == (1,):
+            return False
+        if tuple(v[1]) == (0,):
+            return True
+    return None
+
+
+def agg_variant(t):
+    """'Good' for ('agg', 'node::NodeStatus::Good', …)"""
+    if isinstance(t, tuple) and t[0] == 'agg':
+        return t[1].split('::')[-1]
+    return None
+
+
+def find_calls(t, suffix):
+    return [x for x in term_walk(t) if isinstance(x, tuple) and x and x[0] == 'call' and x[1].endswith(suffix)]
+
+
+def bool_split(paths):
+    """for paths returning a non-constant bool, yield (path, extra_cond, outcome) rows for both outcomes"""
+    out = []
+    for p in paths:
+        r = p.ret
+        k = term_int(r)
+        if k is not None:
+            out.append((p, None, bool(k)))
+        else:
+            out.append((p, (r, 0, -1), False))
+            out.append((p, (r, ('not', (0,)), -1), True))
+    return out
+
+
+def bool_table(paths, classify):
+    """decision table of a bool-returning function; non-constant return values become conditions"""
+    rows = []
+    for p, extra, outcome in bool_split(paths):
+        q = p.clone()
+        q.end = p.end
+        q.ret = p.ret
+        if extra is not None:
+            q.conds.append(extra)
+        t = Table.build([q], classify, lambda _p, o=outcome: o)
+        rows.extend(t.rows)
+    return Table(rows)
